@@ -202,10 +202,15 @@ func SelftestMain(args []string) int {
 // compares the running kernel's answers with the kernel model and the
 // reference decision.
 func kernelValidation(c *Ctx, rng *rand.Rand, tab map[string]int, tier string) (string, int) {
+	s, bad, _ := kernelValidationLines(c, rng, tab, tier)
+	return s, bad
+}
+
+func kernelValidationLines(c *Ctx, rng *rand.Rand, tab map[string]int, tier string) (string, int, []string) {
 	probesNames := []string{"getpid", "getppid", "getuid", "geteuid", "getgid", "getegid", "gettid"}
 	for _, n := range probesNames {
 		if _, ok := tab[n]; !ok {
-			return "probe syscall missing from the table: " + n, 1
+			return "probe syscall missing from the table: " + n, 1, nil
 		}
 	}
 	shapes := EnumPolicyShapes(7, []string{"Equal", "GreaterThan"}, true)
@@ -254,7 +259,7 @@ func kernelValidation(c *Ctx, rng *rand.Rand, tab map[string]int, tier string) (
 	}
 	dir, err := os.MkdirTemp("", "verif-kernel-")
 	if err != nil {
-		return err.Error(), 1
+		return err.Error(), 1, nil
 	}
 	defer os.RemoveAll(dir)
 	b, _ := json.Marshal(cases)
@@ -264,12 +269,12 @@ func kernelValidation(c *Ctx, rng *rand.Rand, tab map[string]int, tier string) (
 	defer func() { run.NoBoundaryRewrite = false }()
 	rp, err := run.NewReplayer(c.RepoDir, c.VerifDir)
 	if err != nil {
-		return err.Error(), 1
+		return err.Error(), 1, nil
 	}
 	defer rp.Close()
 	bin, err := rp.BinFor(run.Module)
 	if err != nil {
-		return "cannot build: " + err.Error(), 1
+		return "cannot build: " + err.Error(), 1, nil
 	}
 	cmd := exec.Command(bin, "-test.run", "^TestVerifKernel$", "-test.timeout", "600s")
 	cmd.Dir = dir
@@ -277,9 +282,11 @@ func kernelValidation(c *Ctx, rng *rand.Rand, tab map[string]int, tier string) (
 	out, _ := cmd.CombinedOutput()
 	bad := 0
 	summary := ""
+	var tsync, fails []string
 	for _, l := range strings.Split(string(out), "\n") {
 		if strings.HasPrefix(l, "VERIF-KERNEL-FAIL") || strings.HasPrefix(l, "VERIF-KERNEL-ERROR") {
 			bad++
+			fails = append(fails, l)
 			if bad < 8 {
 				fmt.Println(l)
 			}
@@ -287,10 +294,16 @@ func kernelValidation(c *Ctx, rng *rand.Rand, tab map[string]int, tier string) (
 		if strings.HasPrefix(l, "VERIF-KERNEL-SUMMARY") {
 			summary = strings.TrimPrefix(l, "VERIF-KERNEL-SUMMARY ")
 		}
+		if strings.HasPrefix(l, "VERIF-KERNEL-TSYNC") {
+			tsync = append(tsync, strings.TrimPrefix(l, "VERIF-KERNEL-TSYNC "))
+		}
+		if strings.HasPrefix(l, "VERIF-KERNEL-UNAVAILABLE") {
+			return "unavailable: " + l, 0, nil
+		}
 	}
 	if summary == "" {
-		return "did not run: " + lastN(string(out), 4), 1
+		return "did not run: " + lastN(string(out), 4), 1, nil
 	}
-	fmt.Println("selftest kernel:", summary)
-	return summary + " (policies over getpid/getppid/get*id/gettid with conditions on all six registers, really installed in child processes with NoNewPrivs, with and without TSYNC; errno / success / SIGSYS compared with KMI and refDecide)", bad
+	fmt.Println("selftest kernel:", summary, "tsync:", tsync)
+	return summary + "; thread-sync assumption sampled (threads spinning / in nanosleep / parked / being created): " + strings.Join(tsync, "; ") + " (policies over getpid/getppid/get*id/gettid with conditions on all six registers, really installed in child processes with NoNewPrivs, with and without TSYNC; errno / success / SIGSYS compared with KMI and refDecide)", bad, fails
 }
